@@ -32,11 +32,12 @@ LEVEL_TEXT = (
     "real attribute strings with the proved literal recognisers and carries the members later checks read (standpoint_id, pp_id, idim/iband, "
     "observation count, cov_mat_data); it is by construction Gkf.run on computed events (C11_value_run_is_run); theorems: every attribute read "
     "has a check and only numerically checked values reach a conversion, conversions = literal languages, documented values are accepted "
-    "(generated table vs hand-written documented table by decide), a valid document with documented values is accepted (partial: bookkeeping "
-    "conditions evaluated in the model's context), a malformed number is refused with the index of its element; correspondence: the driver "
+    "(generated table vs hand-written documented table by decide), a valid document with documented values is accepted "
+    "(C11_valid_document_accepted_partial: GIVEN the bookkeeping conditions allDocOk evaluated in the model's context - that hypothesis is "
+    "discharged from the document alone in round 7), a malformed number is refused with the index of its element; correspondence: the driver "
     "gets the real attribute strings of every event and must predict state/error/line itself (only the Cholesky verdict is an input bit).  "
     "DataParser::pure_data (the test behind every numeric element of the gama-g3 / adjustment input): the order of its early returns and "
-    "its 31 call sites are regenerated, the model (libstdc++ `>> double` / `>> string` + pure_data) is proved to accept exactly 'no extraction "
+    "its 31 call sites are regenerated, the model (libstdc++ `>> double` / `>> string` / since round 7 `>> int` / `>> size_t` + pure_data) is proved to accept exactly 'no extraction "
     "failed and only white space follows' for every chain of extractions and is compared with the real iostream/pure_data on all strings up to "
     "length 4/5; oracle on gama-g3 inputs: a numeric leaf holding a non-number (incl. a number cut off at the end of the text) is refused with a "
     "located error; the diagnostic of every refused document must name the line of the event during which error() was first recorded "
@@ -49,6 +50,15 @@ LEVEL_TEXT = (
     "requiredPairs / crossRules / effects / finishSpec tables in BOTH directions by decide, which also gives the refusal half (an element "
     "breaking a documented rule is refused at its start tag, a dim mismatch at the cluster's closing tag); oracle on the implementation: "
     "155 documents breaking exactly one documented rule must be refused naming that line.  "
+    "Round 7, DataParser: every handler is regenerated once more with each condition described (Gen/DataParserConds.lean: pure_data / failed "
+    "extraction over text_buffer with the kinds of the extracted variables, or 'other'), the run model DP.crun carries text_buffer and computes "
+    "the number-format bits (it projects to DP.run: C11_dp_value_run_is_run); pure_data(istr >> double) accepts exactly FloatLang with a finite "
+    "value, for all strings (C11_dp_numberOk_language; = toDouble of the GKF parser), and for the 19 elements read by one pure_data test: accepted "
+    "iff the pooled text is in the chain language (given the guard bit), otherwise refused at the index of the element's END event whatever "
+    "follows (C11_dp_field_accept_or_located); stream dp_values compares acceptance bit and line with the real parser.  Round 7, results reader: "
+    "a self-consistent <cov-mat> is accepted for every dim/band/word list with the exact final state, a malformed or missing <flt> is located "
+    "(C11_adjres_covmat_accepted / _bad_flt_located / _too_few_located; the stack shape is a hypothesis), whole documents of a sub-grammar are "
+    "accepted (C11_adjres_document_accepted_partial); every allocation is bounded by the unknowns announced (C11_adjres_dim_bounded_by_unknowns).  "
     "Round 9: the refusal half at document level: Doc'.firstBad (Model/GkfDocRefuse.lean) = the first violating element of the tree, and for "
     "every document in the documented vocabulary (Doc'.inVocab: documented attribute names, the 7 attributes on which the code's check differs "
     "from the documented one - computed from the regenerated table, C11_loose_attributes - hold documented values, no empty "
@@ -67,10 +77,16 @@ LEVEL_TEXT = (
     "Memory safety, termination and the located diagnostic of the real process are NOT "
     "proved: they are explored by running gama-local built with ASan+UBSan on grammar-derived, mutated and truncated inputs.")
 LEVEL_NOTE = (
-    "Trusted: Lean kernel; statements in Props/C11.lean; the translator tools/gen/c11_gkf_automaton.py (validated by "
-    "executing its output next to the C++ on every run); harness/c11_gkf.cpp; generators; the hand-written documented value table "
+    "Trusted: Lean kernel; statements in Props/C11*.lean (12 files); the translators tools/gen/c11_gkf_automaton.py, c11_gkf_values.py, "
+    "c11_adjres.py, c11_dataparser.py (validated by executing their output next to the C++ on every run); harness/c11_gkf.cpp, c11_adjres.cpp, "
+    "c11_dataparser.cpp; generators; the hand-written documented value table "
     "Model/GkfDocValues.lean and the documented rule table docRules / Leaf'.count of Model/GkfDocTree.lean (from gama-local.xsd + manual, read by no tool). In the value model the only abstract bit left is the positive-definiteness "
-    "verdict of finish_* (taken from the implementation's message in the correspondence); the older event stream with one bit per event is kept. expat, atof/atoi, iostream extraction, heap behaviour are outside the model.")
+    "verdict of finish_* (taken from the implementation's message in the correspondence); the older event stream with one bit per event is kept. "
+    "The iff accepted <=> valid holds for documents in the documented vocabulary (hypothesis Doc'.inVocab; the parser's liberal spots are outside it and are accepted). "
+    "DataParser: the conditions that are not number formats (Cond.other of 15 handlers: xmlns loop, id lookups, N/E status, g3_obs, g3_obs_cov behind the dimensions, "
+    "counters and matrix code of the adjustment input; the guards g3->model != nullptr and dim>0 && width<dim) stay input bits, named by the conjunct oracleBitsOk of "
+    "C11_dp_document_accepted_iff. Results reader: acceptance of the writer's output is relative to WriterData (hand table leafKind of operand languages; finite double "
+    "rendered in scientific format is in FloatLang: not proved; the two cov-mat count tests). expat, atof/atoi, iostream extraction, heap behaviour are outside the model.")
 TECHNIQUE = ("Lean 4 proof over a model regenerated from the source (translator) + model/implementation correspondence "
              "+ sanitizer-instrumented input search for the runtime clauses")
 RULE = ("documents: per element a valid context with one or two attribute values replaced by strings of the literal languages and their "
@@ -83,7 +99,12 @@ TRUSTED = ["tools/gen/c11_gkf_automaton.py (mini-parser of gkfparser.cpp/.h; rai
            "tools/gen/c11_gkf_values.py (statement-level parser of every process_* body, observation.h constructors, xsd.h; normal form "
            "per attribute + per handler, TieBroken on any statement it does not recognise)",
            "tools/gen/c11_adjres.py, tools/gen/c11_dataparser.py (same, for localnetwork_adjustment_results.{h,cpp} and dataparser*.cpp; "
-           "the fixed callbacks startElement/endElement/get_int/... are compared textually with what the run model was written for)",
+           "the fixed callbacks startElement/endElement/get_int/... are compared textually with what the run model was written for; "
+           "c11_dataparser.py also emits Gen/DataParserConds.lean: every condition as pure / fails / lit / other with the kinds of the extracted variables)",
+           "tools/gen/c12_skeleton.py + c12_sites.py (C12's translators of LocalNetworkXML::write, called by the C11 check to regenerate "
+           "Gen/XmlSkeleton.lean / Gen/XmlSites.lean, the writer side of C11_reader_accepts_writer_output)",
+           "Model/GkfDocTree.lean / GkfDocRefuse.lean / GkfDocValues.lean: hand definitions Doc'.valid, valuesOk, firstBad, inVocab over the hand tables "
+           "docRules, docCheck, Leaf'.count, tagHandler, bandElems, kidTags (from gama-local.xsd + manual; tied to the regenerated tables by decide in both directions)",
            "Model/AdjResWriter.lean: hand tables leafKind (language of the operand the writer streams into each element: isInteger / isFloat / "
            "apriori|aposteriori / free) and attrReq; that a finite double rendered by operator<< in scientific format is in FloatLang is NOT proved "
            "(hypothesis WriterData of C11_reader_accepts_writer_output, with the cov-mat count tests dim <= unknowns and tmp_i == tmp_e)",
@@ -97,7 +118,9 @@ MODELLED = ["the Cholesky (positive definite) test inside finish_* (one input bi
             "(only the accepted language of deg2gon's extractions is modelled, overflow to HUGE_VAL excluded)",
             "memory safety and termination of the C++ process (sanitizer search only)",
             "adjustment-results reader and DataParser: the values stored into the result objects (only control state, error, "
-            "stack of open elements, covariance storage size / iterators / writes are modelled); HtmlParser (sanitizer search only)"]
+            "stack of open elements, covariance storage size / iterators / writes / allocations, the unknowns counter of the reader, and since round 7 "
+            "DataParser's text_buffer with the number-format conditions are modelled; the other DataParser conditions are one input bit each); "
+            "HtmlParser (sanitizer search only)"]
 ASSUMPTIONS = ["expat delivers a prefix of a well-nested event sequence (one root element)",
                "'C' locale for isspace/isdigit", "char values >= 0x80 are neither blank nor digit",
                "memory safety / termination / located diagnostic: explored under ASan+UBSan on generated inputs, not proved"]
